@@ -33,7 +33,9 @@ def main():
         sh(["git", "-C", wt, "clean", "-fdq", "-e", "target"])
     # scratch copy of the simulator, path dependencies pointed at the scratch worktree
     sim = os.path.join(root, "sim")
-    sh(["rsync", "-a", "--delete", "/verif/sim/", sim + "/"])
+    # MUTRUN_SRC: a frozen copy of /verif (check + sim) so that a long matrix run is not disturbed by edits under /verif
+    src = os.environ.get("MUTRUN_SRC", "/verif")
+    sh(["rsync", "-a", "--delete", src + "/sim/", sim + "/"])
     for sub in ("driver", "driver-alloc", "driver-min"):
         p = os.path.join(sim, sub, "Cargo.toml")
         t = open(p).read().replace('path = "/repo/', 'path = "%s/' % wt)
@@ -59,7 +61,7 @@ def main():
             if a.seed:
                 env["VERIF_SEED"] = a.seed
             t0 = time.time()
-            r = sh(["/verif/check", c, "--tier", a.tier], env=env, cwd="/verif")
+            r = sh([src + "/check", c, "--tier", a.tier], env=env, cwd=src)
             lines = r.stdout.splitlines()
             viol = [l for l in lines if l.startswith("VIOLATION ")]
             first = next((l for l in lines if l.startswith("violation:")), "")
